@@ -7,11 +7,11 @@ import (
 	"github.com/joeycumines/go-bigbuff/internal/v/vrt"
 )
 
-const callableTargetVariants = 13
+const callableTargetVariants = 14
 
 func callableTargetName(tv int) string {
 	return [...]string{"none", "correct", "wrong-elem-type", "untyped-nil", "typed-nil-ptr", "non-pointer", "too-few", "too-many",
-		"slice-any", "slice-int", "slice-nil", "slice-non-pointer", "slice-ptr-to-non-slice"}[tv]
+		"slice-any", "slice-int", "slice-nil", "slice-non-pointer", "slice-ptr-to-non-slice", "aliased"}[tv]
 }
 
 func nilable(t reflect.Type) bool {
@@ -187,6 +187,16 @@ func (t *callableTargetSet) check(want []reflect.Value) string {
 				return fmt.Sprintf("result %d: got %v, a direct call returns %v", i, p.Elem(), want[i])
 			}
 		}
+	case "aliased":
+		// a direct call `x, x, rest... = f()` leaves the second result in x
+		if !sameValue(t.ptrs[0].Elem(), want[1]) {
+			return fmt.Sprintf("aliased targets hold %v, a direct call leaves %v (assignment is left to right)", t.ptrs[0].Elem(), want[1])
+		}
+		for i := 2; i < len(t.ptrs); i++ {
+			if !sameValue(t.ptrs[i].Elem(), want[i]) {
+				return fmt.Sprintf("result %d: got %v, a direct call returns %v", i, t.ptrs[i].Elem(), want[i])
+			}
+		}
 	case "slice":
 		s := t.slice.Elem()
 		if s.Len() != t.sliceLen+len(want) {
@@ -292,6 +302,15 @@ func callableTargets(ft reflect.Type, tv int) (*callableTargetSet, CallOption, b
 	case 12:
 		t.kind = "slice"
 		return t, CallResultsSlice(new(int)), false
+	case 13: // the same variable addressed by the first two targets: like `x, x, ... = f()`, which assigns left to right
+		c := correct()
+		if nout < 2 || ft.Out(0) != ft.Out(1) {
+			return t, CallResults(c...), true
+		}
+		c[1] = c[0]
+		t.ptrs[1] = t.ptrs[0]
+		t.kind = "aliased"
+		return t, CallResults(c...), true
 	}
 	panic("bad variant")
 }
